@@ -20,7 +20,7 @@ RULE = (
     "envelope fields and points, samples added/edited/removed, effect replaced or edited, MetaModule count/labels/mappings and edits inside "
     "the embedded project, pattern fields and note cells); value from the attribute's domain. 1-2 successive edits per case. Oracle "
     "(metamorphic): snapshot after the edit differs from the one before only at the edited path + declared couplings and shows the new value; "
-    "snapshot(load(save(edited))) == snapshot(edited). thorough additionally sweeps every fixture x 60 generated edits. distinct = case hash; "
+    "snapshot(load(save(edited))) == snapshot(edited). every fixture is additionally swept deterministically over every attribute of the common catalogue (project fields, common module fields, every controller at both range ends / two members, every option, one binding per controller; quick: every 6th attribute) and with 12 (quick) / 60 (thorough) generated edits. distinct = case hash; "
     "non-trivial = the edit changed the value"
 )
 ASSUMPTIONS = [
@@ -30,7 +30,7 @@ ASSUMPTIONS = [
     "instruments without the 'SAMP' signature (true legacy) are outside this property's domain",
 ]
 REQUIRED_LABELS = {
-    "quick": ["edit_pf", "edit_mc", "edit_ctl", "edit_opt", "edit_cmid", "edit_pay", "edit_cell", "src_fixture", "src_project", "src_synth", "sampler_edit", "changed"],
+    "quick": ["edit_pf", "edit_mc", "edit_ctl", "edit_opt", "edit_cmid", "edit_pay", "edit_cell", "src_fixture", "src_project", "src_synth", "sampler_edit", "changed", "attr_sweep"],
     "thorough": ["edit_pf", "edit_mc", "edit_ctl", "edit_opt", "edit_cmid", "edit_pay", "edit_cell", "edit_patf", "src_fixture", "src_project", "src_synth", "sampler_edit", "metamodule_edit", "embedded_edit", "changed", "fixture_sweep"],
 }
 
@@ -46,6 +46,9 @@ def plan(tier):
         for i in range(2):
             descs.append({"kind": "focus", "type": t, "examples": per})
     fs = c05.fixture_files()
+    for i in range(4):
+        # every fixture x every attribute of the common catalogue (thorough: all; quick: every 6th, phase by seed)
+        descs.append({"kind": "attr_sweep", "files": fs[i::4], "stride": 6 if tier == "quick" else 1, "phase": i})
     k = 4 if tier == "quick" else 8
     for i in range(k):
         descs.append({"kind": "fixture_sweep", "files": fs[i::k], "edits": 12 if tier == "quick" else 60})
@@ -91,6 +94,63 @@ def edit_case(draw, fixture=None, focus=None):
     src = dict(src)
     src["edits"] = eds
     return src
+
+
+def enumerate_attribute_edits(obj):
+    """Deterministic sweep: one edit per serialized attribute of the common catalogue (project fields,
+    common module fields, every controller x 2 values, every option, one MIDI binding per controller)."""
+    from vlib import specmodel
+
+    out = []
+    by_mtype = specmodel.by_mtype()
+    proj = type(obj).__name__ == "Project"
+    if proj:
+        vals = {
+            "based_on_version": [1, 2, 3, 4], "flags": 1, "receive_sync_midi": 5, "receive_sync_other": 6, "initial_bpm": 999, "initial_tpl": 31, "time_grid": 7,
+            "time_grid2": 9, "global_volume": 511, "name": "Ren\u00e9 \u2603", "modules_scale": 300, "modules_zoom": 301, "modules_x_offset": -77, "modules_y_offset": 88,
+            "modules_layer_mask": 0xA5, "modules_current_layer": 3, "timeline_position": -5, "restart_position": 17, "selected_module": 2, "selected_generator": 1,
+            "current_pattern": 4, "current_track": 5, "current_line": 6,
+        }
+        for k, v in vals.items():
+            out.append(["pf", k, v])
+        mods = [(i, m) for i, m in enumerate(obj.modules) if m is not None]
+    else:
+        mods = [(-1, obj.module)]
+    common = {"name": "n\u00e4me-\u266b", "flags": 0x4051 | 0x80, "mod_finetune": -200, "mod_relative_note": 99, "mod_scale": 333, "color": [1, 2, 3], "midi_in_always": True, "midi_in_channel": 9,
+              "midi_out_name": "out \u00fc", "midi_out_channel": 4, "midi_out_bank": 77, "midi_out_program": 5}
+    if proj:
+        common.update({"x": -123, "y": 4567, "layer": 5, "visualization": 0x0A0F0221})
+    for mi, m in mods:
+        mt = by_mtype.get(m.mtype)
+        for k, v in common.items():
+            if k == "name" and type(m).__name__ == "Output":
+                continue
+            if k == "midi_in_always":
+                v = not bool(m.midi_in_always)
+            out.append(["mod", mi, "mc", k, v])
+        if mt is None:
+            continue
+        for c in mt.controllers:
+            cur = getattr(m, c.name)
+            if c.kind in ("range", "compact", "no_offset"):
+                cands = [c.min, c.max]
+            elif c.kind == "enum":
+                cands = [["enum", n] for n in list(c.members)[:2]]
+            elif c.kind == "bool":
+                cands = [not bool(cur)]
+            else:
+                lo, hi = c.ranges[edits.current_unit(m, c)]
+                cands = [lo, hi]
+            for v in cands:
+                out.append(["mod", mi, "ctl", c.name, v])
+            out.append(["mod", mi, "cmid", c.name, [3, 7, 2, 1234]])
+        for o in mt.options:
+            if o.name == "user_defined_controllers":
+                continue
+            cur = getattr(m, o.name)
+            v = (not bool(cur)) if o.size == 1 else (int(cur) + 1) % ((o.max + 1) if o.max is not None else (1 << o.size))
+            out.append(["mod", mi, "opt", o.name, v])
+    return out
 
 
 def run_case(ctx, case):
@@ -168,6 +228,35 @@ def run_shard(ctx, desc):
         if len(repr(case)) < 1200:
             ctx.sample(case)
 
+    if desc["kind"] == "attr_sweep":
+        for f in desc["files"]:
+            rel = os.path.relpath(f, os.path.join(REPO, "tests", "files"))
+            obj = c05.load(base_bytes({"src": "fixture", "file": rel}))
+            all_edits = enumerate_attribute_edits(obj)
+            stride = desc["stride"]
+            n = 0
+            for i, e in enumerate(all_edits):
+                if i % stride != desc["phase"] % stride:
+                    continue
+                case = {"src": "fixture", "file": rel, "edits": [e]}
+                ctx.case()
+                try:
+                    labels, changed = run_case(ctx, case)
+                    if changed:
+                        ctx.mark_nontrivial(case)
+                except PropertyViolation as v:
+                    ctx.check(False, v.sub_oracle, v.detail, key=v.key, recipe={"tag": "attr_sweep", "case": case})
+                except Exception as ex:  # noqa: BLE001
+                    from vlib.harness import as_violation
+
+                    v = as_violation(ex, "C06", "edit")
+                    if v is None:
+                        raise
+                    ctx.check(False, v.sub_oracle, "%s %r: %s" % (rel, e[:4], v.detail), key=v.key, recipe={"tag": "attr_sweep", "case": case})
+                n += 1
+            ctx.label("attr_sweep")
+            ctx.sample({"src": "attr_sweep", "file": rel, "attributes": len(all_edits), "edited": n})
+        return
     if desc["kind"] == "fixture_sweep":
         for f in desc["files"]:
             rel = os.path.relpath(f, os.path.join(REPO, "tests", "files"))
